@@ -17,14 +17,25 @@ TextKindOf(k) ==
   CASE k \in {"key.local", "keytext.local"} -> "key.local"
     [] k \in {"key.public", "keytext.public", "key.pkepublic"} -> "key.public"
     [] k \in {"key.secret", "keytext.secret", "key.pkesecret"} -> "key.secret"
+    [] k \in {"id.pid", "id.pkepid"} -> "id.pid"          \* the id of a key-sealing public key is a pid
+    [] k \in {"id.sid", "id.pkesid"} -> "id.sid"
     [] OTHER -> k
 
 FullKeyParser(k) == k \in {"key.local", "key.public", "key.secret", "key.pkepublic", "key.pkesecret"}
 \* v1 signing keys are RSA-2048 and v1 PKE keys RSA-4096: the same text form, different validity
 RsaClass(k) == IF k \in {"key.pkepublic", "key.pkesecret"} THEN "pke" ELSE "sig"
 
+\* fixed key lengths (Versions.tla); 0 = variable (v1 DER)
+KeyLenOf(ver, kind) == CASE kind = "key.local" -> 32
+                         [] kind = "key.public" -> (CASE ver = 3 -> 49 [] ver \in {2, 4} -> 32 [] OTHER -> 0)
+                         [] kind = "key.secret" -> (CASE ver = 3 -> 48 [] ver \in {2, 4} -> 64 [] OTHER -> 0)
+
 Verdict(r) ==
-  IF r.fn # "xparse" THEN "unknown-record"
+  IF r.fn = "xbody" THEN
+       (IF r.result = "panic" THEN "panic"
+        ELSE IF r.ok /\ KeyLenOf(r.dst_ver, r.dst_kind) # 0 /\ r.body_len # KeyLenOf(r.dst_ver, r.dst_kind)
+             THEN "bytes-of-another-kinds-length-accepted-as-key" ELSE "ok")
+  ELSE IF r.fn # "xparse" THEN "unknown-record"
   ELSE IF r.result = "panic" THEN "panic"
   ELSE LET same == r.src_ver = r.dst_ver /\ TextKindOf(r.src_kind) = TextKindOf(r.dst_kind)
            grammar == ParseText(TextKindOf(r.dst_kind), r.dst_ver, r.text, TRUE).ok
